@@ -53,6 +53,9 @@ where
     #[error("attempted to add group {0} with manage access")]
     ManagerGroupsNotAllowed(ID),
 
+    #[error("operation {1} changes group {0} which does not exist")]
+    UnknownGroup(ID, OP),
+
     #[error("resolver error: {0}")]
     Resolver(RS::Error),
 }
@@ -636,9 +639,20 @@ where
             ));
         }
 
+        // Every action except of "create" changes an already existing group. The group needs to
+        // exist at the point in the graph the operation claims as its previous state, otherwise
+        // there is nothing the action can be applied to.
+        let current_state = temp_y.inner.current_state();
+        if !operation.action().is_create() && !current_state.contains_key(&operation.group_id()) {
+            return Err(GroupCrdtError::UnknownGroup(
+                operation.group_id(),
+                operation.id(),
+            ));
+        }
+
         // Apply the operation onto the temporary state.
         let result = apply_action(
-            temp_y.inner.current_state(),
+            current_state,
             operation.group_id(),
             operation.id(),
             operation.author(),
